@@ -8,7 +8,7 @@ rnd, l1, l2 = sys.argv[1], sys.argv[2], sys.argv[3]
 CLOSING = open(os.path.join(os.path.dirname(__file__), 'prompt_closing_%s.txt' % rnd)).read()
 for i in range(1, 21):
     pid = 'C%02d' % i
-    prev = sorted(glob.glob('/tmp/mut/%s/PROMPT[0-9].md' % pid))[-1] if glob.glob('/tmp/mut/%s/PROMPT[0-9].md' % pid) else '/tmp/mut/%s/PROMPT.md' % pid
+    prev = sorted(glob.glob("/tmp/mut/%s/PROMPT[0-9].md" % pid))[-1] if glob.glob('/tmp/mut/%s/PROMPT[0-9].md' % pid) else '/tmp/mut/%s/PROMPT.md' % pid
     txt = open(prev).read()
     head = txt.split('\nIMPORTANT — this is a')[0]
     head = re.sub(r'\(call them \w and \w\)', '(call them %s and %s)' % (l1, l2), head)
